@@ -235,9 +235,19 @@ def run_agent_shutdown(params, known):
                 continue
             if n == 3 and load.count('idle') != 1:
                 continue
-            configs.append((contacts, load))
+            configs.append((contacts, load, False))
+    # a peer asks for termination at the same time (its SESS_TERM may already be answered, with the
+    # reply not yet written or a transfer of X still awaiting its acknowledgement, when the user asks)
+    for contacts in (['out'], ['in'], ['out', 'out'], ['out', 'in'], ['in', 'out']):
+        for load in itertools.product(('idle', 'p-terms', 'x-sends+p-terms'), repeat=len(contacts)):
+            if all(what == 'idle' for what in load):
+                continue
+            configs.append((contacts, load, False))
+    # the user asks while the contacts are still being set up (k steps after their creation)
+    for contacts in (['out'], ['in'], ['out', 'in'], ['in', 'out']):
+        configs.append((contacts, tuple('idle' for _ in contacts), True))
     idx = -1
-    for (contacts, load) in configs:
+    for (contacts, load, early) in configs:
         names = ['X'] + ['P%d' % i for i in range(len(contacts))]
         orders = [names[k:] + names[:k] for k in range(len(names))] + [list(reversed(names))]
         for order in orders:
@@ -246,28 +256,31 @@ def run_agent_shutdown(params, known):
                 continue
             k = 0
             while True:
-                case = dict(contacts=contacts, load=list(load), order=order, shutdown_after=k)
+                case = dict(contacts=contacts, load=list(load), order=order, shutdown_after=k, early=early)
                 w = AgentWorld(dict(contacts=contacts))
-                w.run_policy(order)                 # all sessions established
+                if not early:
+                    w.run_policy(order)                 # all sessions established
                 paths = [str(p) for p in w.x_contacts()[1]]
-                if len(paths) != len(contacts):
+                if not early and len(paths) != len(contacts):
                     viol('contact-missing-after-setup', dict(), repr(paths), case)
                     break
                 # X's contact object of contact i: outgoing ones are numbered in creation order first
                 peer_of = {}
                 for path in paths:
                     prm = w.bus_call(w.procs['X'], path, 'get_session_parameters', iface=CONTACT_IFACE)
-                    peer_of[path] = str(prm[1]['peer_nodeid']) if prm[0] == 'ok' else None
+                    peer_of[path] = str(prm[1]['peer_nodeid']) if prm[0] == 'ok' and 'peer_nodeid' in prm[1] else None
                 by_peer = {v: kk for (kk, v) in peer_of.items()}
                 sent = []
                 for (i, what) in enumerate(load):
                     xpath = by_peer.get('dtn://p%d/' % i)
-                    if what == 'x-sends':
+                    if what.startswith('x-sends'):
                         res = w.bus_call(w.procs['X'], xpath, 'send_bundle_data', data_x, iface=CONTACT_IFACE)
                         sent.append(('X', xpath, 'P%d' % i, PPATH, data_x, str(res[1]) if res[0] == 'ok' else None))
                     elif what == 'p-sends':
                         res = w.bus_call(w.procs['P%d' % i], PPATH, 'send_bundle_data', data_p, iface=CONTACT_IFACE)
                         sent.append(('P%d' % i, PPATH, 'X', xpath, data_p, str(res[1]) if res[0] == 'ok' else None))
+                    if what.endswith('p-terms'):
+                        w.bus_call(w.procs['P%d' % i], PPATH, 'terminate', 0, iface=CONTACT_IFACE)
                 done = 0
                 live = list(order)
                 while done < k:
@@ -288,8 +301,11 @@ def run_agent_shutdown(params, known):
                     viol('run-does-not-end', dict(), str(err), case)
                     break
                 count += 1
-                keys.add('%s/%s/%s/%d' % ('+'.join(contacts), '+'.join(load), ''.join(order), k))
+                keys.add('%s/%s/%s/%d/%s' % ('+'.join(contacts), '+'.join(load), ''.join(order), k, early))
                 sig = w.sig
+                # the watch of a listening socket that was closed earlier in the same loop iteration still fires
+                # once (accept() then fails with EBADF and the watch goes away): no contact is concerned
+                sig.escaped = [e for e in sig.escaped if not (e[1] == 'OSError' and 'Bad file descriptor' in e[2] and 'in _accept' in e[3])]
                 if sig.escaped:
                     viol('escaped-exception', dict(exc=sig.escaped[-1][1]), '%s: %s' % (sig.escaped[-1][1], sig.escaped[-1][2]), case)
                 if sig.marshal_errors:
@@ -319,7 +335,10 @@ def run_agent_shutdown(params, known):
                     if fin[0] == 'success' and not any(a[1] == len(data) and a[2] == 'success' for a in got):
                         viol('success-without-reception', dict(), 'receiver signals %r' % (got,), case)
                 closed = [args[0] for (pn, pth, member, args) in sig.log if pn == 'X' and member == 'connection_closed']
-                if sorted(closed) != sorted(paths):
+                if early:
+                    if len(closed) != len(set(closed)):
+                        viol('contacts-not-announced-closed-once', dict(), 'closed %r' % (closed,), case)
+                elif sorted(closed) != sorted(paths):
                     viol('contacts-not-announced-closed-once', dict(), 'closed %r, contacts %r' % (closed, paths), case)
                 if exhausted:
                     break
